@@ -66,8 +66,8 @@ theorem logEvs_s (async : Bool) (v : Vol) (m : Mutation) (dr : Nat) (tn : Bool) 
     (logEvs async v m dr tn).2.s = v.s := by
   unfold logEvs; cases async <;> rfl
 
-theorem writeEvs_s (async : Bool) (v : Vol) (m : Mutation) (rot : Bool) (dr : Nat) (tn : Bool) :
-    (writeEvs async v m rot dr tn).2.s =
+theorem writeEvs_s (async : Bool) (v : Vol) (m : Mutation) (rot : Bool) (dr : Nat) (tn : Bool) (junks : List Layer) :
+    (writeEvs async v m rot dr tn junks).2.s =
       if rot then rotate { v.s with w := m.apply v.s.w } else { v.s with w := m.apply v.s.w } := by
   unfold writeEvs
   cases rot with
@@ -102,12 +102,12 @@ theorem compactEvs_s (d : Disk) (v : Vol) (sizes : List Nat) :
 /-- apart from `reopen` (which reads the disk), a step changes the process state exactly as in the L6 model -/
 theorem fsStep_s (async : Bool) (d : Disk) (v : Vol) (a : AStep) (hno : ∀ o, a.st ≠ .reopen o) :
     (fsStep async d v a).2.s = (step v.s a.st).1 := by
-  obtain ⟨st, dr, tn⟩ := a
+  obtain ⟨st, dr, tn, jk⟩ := a
   cases st with
   | putB k val rot =>
     simp only [fsStep, step]
     rcases stepMut_putB v.s k val rot with (⟨kb, vb, rfl, rfl, hm, _, _, hp⟩ | ⟨hm, hp⟩)
-    · rw [hm, hp]; exact writeEvs_s _ _ _ _ _ _
+    · rw [hm, hp]; exact writeEvs_s _ _ _ _ _ _ _
     · rw [hm]; exact hp.symm
   | putS k val rot =>
     simp only [fsStep, step]
@@ -115,7 +115,7 @@ theorem fsStep_s (async : Bool) (d : Disk) (v : Vol) (a : AStep) (hno : ∀ o, a
     have hsame : stepMut v.s (.putS k val rot) = stepMut v.s (.putB (some k) (some val) rot) := rfl
     rw [hsame]
     rcases stepMut_putB v.s (some k) (some val) rot with (⟨kb, vb, hk, hv, hm, _, _, hp⟩ | ⟨hm, hp⟩)
-    · rw [hm, hp]; exact writeEvs_s _ _ _ _ _ _
+    · rw [hm, hp]; exact writeEvs_s _ _ _ _ _ _ _
     · rw [hm]; exact hp.symm
   | delB k =>
     simp only [fsStep, step, stepMut, deleteBytes]
@@ -123,7 +123,7 @@ theorem fsStep_s (async : Bool) (d : Disk) (v : Vol) (a : AStep) (hno : ∀ o, a
     | true =>
       have hn : (!v.s.isOpen || v.s.closed) = false := by rw [usable_not, hu]; rfl
       simp only [if_true, hn, Bool.false_eq_true, if_false]
-      exact writeEvs_s _ _ _ _ _ _
+      exact writeEvs_s _ _ _ _ _ _ _
     | false =>
       have hn : (!v.s.isOpen || v.s.closed) = true := by rw [usable_not, hu]; rfl
       simp [hn]
@@ -133,7 +133,7 @@ theorem fsStep_s (async : Bool) (d : Disk) (v : Vol) (a : AStep) (hno : ∀ o, a
     | true =>
       have hn : (!v.s.isOpen || v.s.closed) = false := by rw [usable_not, hu]; rfl
       simp only [if_true, hn, Bool.false_eq_true, if_false]
-      exact writeEvs_s _ _ _ _ _ _
+      exact writeEvs_s _ _ _ _ _ _ _
     | false =>
       have hn : (!v.s.isOpen || v.s.closed) = true := by rw [usable_not, hu]; rfl
       simp [hn]
@@ -163,7 +163,7 @@ theorem fsStep_s (async : Bool) (d : Disk) (v : Vol) (a : AStep) (hno : ∀ o, a
     | true =>
       have hn : (!v.s.isOpen || v.s.closed) = false := by rw [usable_not, hu]; rfl
       simp only [if_true, hn, Bool.false_eq_true, if_false]
-      show ({ (flushEvs (rotateEvs v).2).2.s with closed := true } : State) = _
+      show ({ (flushEvs (rotateEvs v jk).2 jk).2.s with closed := true } : State) = _
       rw [flushEvs_s]
       rfl
     | false =>
@@ -192,43 +192,44 @@ theorem usable_flush (s : State) : usable (flushStep s) = usable s := by
 theorem good3_L {x y : Disk} {v : Vol} (h : QS x v) (hg : Good3 x y) : GoodL (abs v.s) y :=
   ⟨hg.1, hg.2.trans h.serves⟩
 
-theorem flushS (v : Vol) : Seg (GoodL (abs v.s)) (fun x => QS x v) (flushEvs v).1 (fun x => QS x (flushEvs v).2) := by
+theorem flushS (v : Vol) (junks : List Layer) :
+    Seg (GoodL (abs v.s)) (fun x => QS x v) (flushEvs v junks).1 (fun x => QS x (flushEvs v junks).2) := by
   intro x hx
   obtain ⟨⟨junk, ro, rc, tn, hq⟩, he⟩ := hx
-  obtain ⟨junk', hseg⟩ := flush_seg x v junk ro rc tn hq
+  obtain ⟨junk', hseg⟩ := flush_seg x v junk ro rc tn hq junks
   obtain ⟨g, q⟩ := hseg x rfl
   exact ⟨fun n => good3_L ⟨⟨junk, ro, rc, tn, hq⟩, he⟩ (g n), ⟨⟨junk', ro, rc, tn, q⟩, by rw [flushEvs_queue]; exact he⟩⟩
 
-theorem rotateS (v : Vol) (hu : usable v.s = true) :
-    Seg (GoodL (abs v.s)) (fun x => QS x v) (rotateEvs v).1 (fun x => QS x (rotateEvs v).2) := by
+theorem rotateS (v : Vol) (hu : usable v.s = true) (junks : List Layer) :
+    Seg (GoodL (abs v.s)) (fun x => QS x v) (rotateEvs v junks).1 (fun x => QS x (rotateEvs v junks).2) := by
   intro x hx
   have hinv := hx.inv
   have hqe : v.queue = [] := hx.2
   -- the flusher first
-  have h1 := flushS v
+  have h1 := flushS v junks
   -- then the tail, from the flushed state
-  have hv1s : (flushEvs v).2.s = flushStep v.s := flushEvs_s v
-  have hu1 : usable (flushEvs v).2.s = true := by rw [hv1s, usable_flush]; exact hu
-  have hp1 : (flushEvs v).2.s.flushPending = false := by rw [hv1s]; exact flushStep_pending _
-  have hq1 : (flushEvs v).2.queue = [] := by rw [flushEvs_queue]; exact hqe
-  have h2 : Seg (GoodL (abs v.s)) (fun y => QS y (flushEvs v).2)
-      [.walClose (flushEvs v).2.walCur, .walCreate ((flushEvs v).2.walCur + 1), .walHeader ((flushEvs v).2.walCur + 1)]
-      (fun y => QS y (rotateEvs v).2) := by
+  have hv1s : (flushEvs v junks).2.s = flushStep v.s := flushEvs_s v
+  have hu1 : usable (flushEvs v junks).2.s = true := by rw [hv1s, usable_flush]; exact hu
+  have hp1 : (flushEvs v junks).2.s.flushPending = false := by rw [hv1s]; exact flushStep_pending _
+  have hq1 : (flushEvs v junks).2.queue = [] := by rw [flushEvs_queue]; exact hqe
+  have h2 : Seg (GoodL (abs v.s)) (fun y => QS y (flushEvs v junks).2)
+      [.walClose (flushEvs v junks).2.walCur, .walCreate ((flushEvs v junks).2.walCur + 1), .walHeader ((flushEvs v junks).2.walCur + 1)]
+      (fun y => QS y (rotateEvs v junks).2) := by
     intro y hy
     obtain ⟨⟨junk, ro, rc, tn, hq⟩, he⟩ := hy
-    obtain ⟨g, q⟩ := rotTail_seg y (flushEvs v).2 junk ro rc tn hq hu1 hp1 hq1 y rfl
-    have habs : abs (flushEvs v).2.s = abs v.s := by rw [hv1s]; exact abs_flush hinv
+    obtain ⟨g, q⟩ := rotTail_seg y (flushEvs v junks).2 junk ro rc tn hq hu1 hp1 hq1 y rfl
+    have habs : abs (flushEvs v junks).2.s = abs v.s := by rw [hv1s]; exact abs_flush hinv
     refine ⟨fun n => ?_, ?_⟩
     · have := good3_L ⟨⟨junk, ro, rc, tn, hq⟩, he⟩ (g n)
       rw [habs] at this; exact this
     · refine ⟨⟨junk, rc, [], false, ?_⟩, rfl⟩
-      have : (rotateEvs v).2 = { s := rotate (flushEvs v).2.s, walCur := (flushEvs v).2.walCur + 1, walOld := some (flushEvs v).2.walCur, queue := [] } := by
-        have e0 : (rotateEvs v).2 = { s := rotate v.s, walCur := (flushEvs v).2.walCur + 1, walOld := some (flushEvs v).2.walCur, queue := [] } := rfl
+      have : (rotateEvs v junks).2 = { s := rotate (flushEvs v junks).2.s, walCur := (flushEvs v junks).2.walCur + 1, walOld := some (flushEvs v junks).2.walCur, queue := [] } := by
+        have e0 : (rotateEvs v junks).2 = { s := rotate v.s, walCur := (flushEvs v junks).2.walCur + 1, walOld := some (flushEvs v junks).2.walCur, queue := [] } := rfl
         rw [e0, hv1s, rotate_flush]
       rw [this]; exact q
-  have hev : (rotateEvs v).1 = (flushEvs v).1 ++ [.walClose (flushEvs v).2.walCur,
-      .walCreate ((flushEvs v).2.walCur + 1), .walHeader ((flushEvs v).2.walCur + 1)] := by
-    have e0 : (rotateEvs v).1 = (flushEvs v).1 ++ drainEvs (flushEvs v).2.walCur (flushEvs v).2.queue ++ [Ev.walClose (flushEvs v).2.walCur, Ev.walCreate ((flushEvs v).2.walCur + 1), Ev.walHeader ((flushEvs v).2.walCur + 1)] := rfl
+  have hev : (rotateEvs v junks).1 = (flushEvs v junks).1 ++ [.walClose (flushEvs v junks).2.walCur,
+      .walCreate ((flushEvs v junks).2.walCur + 1), .walHeader ((flushEvs v junks).2.walCur + 1)] := by
+    have e0 : (rotateEvs v junks).1 = (flushEvs v junks).1 ++ drainEvs (flushEvs v junks).2.walCur (flushEvs v junks).2.queue ++ [Ev.walClose (flushEvs v junks).2.walCur, Ev.walCreate ((flushEvs v junks).2.walCur + 1), Ev.walHeader ((flushEvs v junks).2.walCur + 1)] := rfl
     rw [e0, hq1]; simp [drainEvs]
   rw [hev]
   exact Seg.append h1 h2 x hx
@@ -245,9 +246,10 @@ theorem GoodL.toS {A B : Key → Option Bytes} {x : Disk} (h : GoodL A x) : Good
 theorem GoodL.toS' {A B : Key → Option Bytes} {x : Disk} (h : GoodL B x) : GoodS A B x := ⟨h.1, Or.inr h.2⟩
 
 /-- an accepted write, with or without a size-triggered rotation -/
-theorem writeStepS (v : Vol) (hu : usable v.s = true) (m : Mutation) (hm : m.ok = true) (rot : Bool) :
-    Seg (GoodS (abs v.s) (abs (writeEvs false v m rot 0 false).2.s)) (fun x => QS x v)
-      (writeEvs false v m rot 0 false).1 (fun x => QS x (writeEvs false v m rot 0 false).2) := by
+theorem writeStepS (v : Vol) (hu : usable v.s = true) (m : Mutation) (hm : m.ok = true) (rot : Bool) (dr : Nat) (tn : Bool)
+    (junks : List Layer) :
+    Seg (GoodS (abs v.s) (abs (writeEvs false v m rot dr tn junks).2.s)) (fun x => QS x v)
+      (writeEvs false v m rot dr tn junks).1 (fun x => QS x (writeEvs false v m rot dr tn junks).2) := by
   have hw := writeS v hu m hm
   cases rot with
   | false => exact hw
@@ -255,8 +257,8 @@ theorem writeStepS (v : Vol) (hu : usable v.s = true) (m : Mutation) (hm : m.ok 
     intro x hx
     have hinv1 : Inv (wrote v m).s := wrote_inv hx.inv hu m hm
     have hu1 : usable (wrote v m).s = true := hu
-    have hr := rotateS (wrote v m) hu1
-    have hB : abs (writeEvs false v m true 0 false).2.s = abs (wrote v m).s := by
+    have hr := rotateS (wrote v m) hu1 junks
+    have hB : abs (writeEvs false v m true dr tn junks).2.s = abs (wrote v m).s := by
       rw [writeEvs_s]
       exact abs_rotate hinv1 hu1
     rw [hB]
@@ -264,9 +266,10 @@ theorem writeStepS (v : Vol) (hu : usable v.s = true) (m : Mutation) (hm : m.ok 
 
 /-! ## one step -/
 
-theorem syncStep (d : Disk) (v : Vol) (st : Step) (h : QS d v) :
-    Seg (GoodS (abs v.s) (abs (fsStep false d v { st := st }).2.s)) (fun x => x = d)
-      (fsStep false d v { st := st }).1 (fun x => QS x (fsStep false d v { st := st }).2) := by
+theorem syncStep (d : Disk) (v : Vol) (a : AStep) (h : QS d v) :
+    Seg (GoodS (abs v.s) (abs (fsStep false d v a).2.s)) (fun x => x = d)
+      (fsStep false d v a).1 (fun x => QS x (fsStep false d v a).2) := by
+  obtain ⟨st, dr, tn, junks⟩ := a
   have hnil : ∀ B, Seg (GoodS (abs v.s) B) (fun x => x = d) [] (fun x => QS x v) := by
     intro B
     apply Seg.nil
@@ -276,20 +279,20 @@ theorem syncStep (d : Disk) (v : Vol) (st : Step) (h : QS d v) :
     fun hs => hs.weaken (fun x hx => hx ▸ h) (fun _ hq => hq)
   have hmut : ∀ (st' : Step) (rot : Bool), (∀ m, stepMut v.s st' = some m → usable v.s = true ∧ m.ok = true) →
       Seg (GoodS (abs v.s) (abs (match stepMut v.s st' with
-          | some m => writeEvs false v m rot 0 false
+          | some m => writeEvs false v m rot dr tn junks
           | none => ([], v)).2.s)) (fun x => x = d)
         (match stepMut v.s st' with
-          | some m => writeEvs false v m rot 0 false
+          | some m => writeEvs false v m rot dr tn junks
           | none => ([], v)).1
         (fun x => QS x (match stepMut v.s st' with
-          | some m => writeEvs false v m rot 0 false
+          | some m => writeEvs false v m rot dr tn junks
           | none => ([], v)).2) := by
     intro st' rot hok
     cases hm : stepMut v.s st' with
     | none => exact hnil _
     | some m =>
       obtain ⟨hu, hmo⟩ := hok m hm
-      exact hstart (writeStepS v hu m hmo rot)
+      exact hstart (writeStepS v hu m hmo rot dr tn junks)
   cases st with
   | putB k val rot =>
     apply hmut (.putB k val rot) rot
@@ -334,9 +337,9 @@ theorem syncStep (d : Disk) (v : Vol) (st : Step) (h : QS d v) :
     | false => exact hnil _
     | true =>
       simp only [if_true]
-      exact hstart ((rotateS v hu).good_mono (fun y hy => hy.toS))
+      exact hstart ((rotateS v hu junks).good_mono (fun y hy => hy.toS))
   | flush =>
-    exact hstart ((flushS v).good_mono (fun y hy => hy.toS))
+    exact hstart ((flushS v junks).good_mono (fun y hy => hy.toS))
   | compact sizes =>
     simp only [fsStep]
     cases hu : usable v.s with
@@ -355,20 +358,20 @@ theorem syncStep (d : Disk) (v : Vol) (st : Step) (h : QS d v) :
     | true =>
       simp only [if_true]
       -- rotate, let the flusher finish, close the file
-      have h1 := rotateS v hu
+      have h1 := rotateS v hu junks
       have hinv := h.inv
-      have hA1 : abs (rotateEvs v).2.s = abs v.s := abs_rotate hinv hu
-      have h2 : Seg (GoodL (abs v.s)) (fun x => QS x (rotateEvs v).2) (flushEvs (rotateEvs v).2).1
-          (fun x => QS x (flushEvs (rotateEvs v).2).2) := by
-        have := flushS (rotateEvs v).2
+      have hA1 : abs (rotateEvs v junks).2.s = abs v.s := abs_rotate hinv hu
+      have h2 : Seg (GoodL (abs v.s)) (fun x => QS x (rotateEvs v junks).2) (flushEvs (rotateEvs v junks).2 junks).1
+          (fun x => QS x (flushEvs (rotateEvs v junks).2 junks).2) := by
+        have := flushS (rotateEvs v junks).2 junks
         rw [hA1] at this; exact this
-      have h3 : Seg (GoodL (abs v.s)) (fun x => QS x (flushEvs (rotateEvs v).2).2)
-          [.walClose (flushEvs (rotateEvs v).2).2.walCur]
-          (fun x => QS x { (flushEvs (rotateEvs v).2).2 with s := { (flushEvs (rotateEvs v).2).2.s with closed := true } }) := by
+      have h3 : Seg (GoodL (abs v.s)) (fun x => QS x (flushEvs (rotateEvs v junks).2 junks).2)
+          [.walClose (flushEvs (rotateEvs v junks).2 junks).2.walCur]
+          (fun x => QS x { (flushEvs (rotateEvs v junks).2 junks).2 with s := { (flushEvs (rotateEvs v junks).2 junks).2.s with closed := true } }) := by
         intro x hx
-        have hA2 : abs (flushEvs (rotateEvs v).2).2.s = abs v.s := by
+        have hA2 : abs (flushEvs (rotateEvs v junks).2 junks).2.s = abs v.s := by
           rw [flushEvs_s]
-          have : Inv (rotateEvs v).2.s := rotate_inv _ hinv (by rw [← usable_eq]; exact hu)
+          have : Inv (rotateEvs v junks).2.s := rotate_inv _ hinv (by rw [← usable_eq]; exact hu)
           rw [abs_flush this]; exact hA1
         have hgood : GoodL (abs v.s) x := ⟨hx.diskOk, hx.serves.trans hA2⟩
         refine ⟨fun n => ?_, ?_⟩
@@ -376,17 +379,17 @@ theorem syncStep (d : Disk) (v : Vol) (st : Step) (h : QS d v) :
           | zero => exact hgood
           | succ n => rw [List.take_succ_cons, List.take_nil]; exact hgood
         · -- closing the database: the remaining files are leftovers
-          have hxe : applyEvs x [Ev.walClose (flushEvs (rotateEvs v).2).2.walCur] = x := rfl
+          have hxe : applyEvs x [Ev.walClose (flushEvs (rotateEvs v junks).2 junks).2.walCur] = x := rfl
           rw [hxe]
           obtain ⟨⟨junk, ro, rc, tn, hq⟩, he⟩ := hx
-          have hus : usable (flushEvs (rotateEvs v).2).2.s = true := by
+          have hus : usable (flushEvs (rotateEvs v junks).2 junks).2.s = true := by
             rw [flushEvs_s, usable_flush]
             show usable (rotate v.s) = true
             rw [usable_rotate]; exact hu
-          have hpf : (flushEvs (rotateEvs v).2).2.s.flushPending = false := by
+          have hpf : (flushEvs (rotateEvs v junks).2 junks).2.s.flushPending = false := by
             rw [flushEvs_s]; exact flushStep_pending _
           obtain ⟨hwd, hw, _⟩ := hq.live hus
-          have hwz : (flushEvs (rotateEvs v).2).2.s.w = [] := by
+          have hwz : (flushEvs (rotateEvs v junks).2 junks).2.s.w = [] := by
             rw [flushEvs_s, flushStep_w]; rfl
           rw [he, List.append_nil, hwz] at hw
           have hrc : rc = [] := applyMuts_eq_nil hw
@@ -394,16 +397,16 @@ theorem syncStep (d : Disk) (v : Vol) (st : Step) (h : QS d v) :
             cases tn with
             | false => rfl
             | true => exact absurd he (hq.tnq rfl)
-          have hnu : usable ({ (flushEvs (rotateEvs v).2).2.s with closed := true } : State) = false := by
+          have hnu : usable ({ (flushEvs (rotateEvs v junks).2 junks).2.s with closed := true } : State) = false := by
             unfold usable; simp
-          refine ⟨⟨junk ++ [{ num := (flushEvs (rotateEvs v).2).2.walCur }], [], [], false, ?_⟩, he⟩
+          refine ⟨⟨junk ++ [{ num := (flushEvs (rotateEvs v junks).2 junks).2.walCur }], [], [], false, ?_⟩, he⟩
           exact {
             inv := by
               have hc := close_inv v.s hinv (by rw [← usable_eq]; exact hu)
-              have : ({ (flushEvs (rotateEvs v).2).2.s with closed := true } : State) =
+              have : ({ (flushEvs (rotateEvs v junks).2 junks).2.s with closed := true } : State) =
                   { flushStep (rotate v.s) with closed := true } := by
                 rw [flushEvs_s]; rfl
-              show Inv ({ (flushEvs (rotateEvs v).2).2.s with closed := true } : State)
+              show Inv ({ (flushEvs (rotateEvs v junks).2 junks).2.s with closed := true } : State)
               rw [this]; exact hc
             tables := hq.tables
             comps := hq.comps
@@ -415,11 +418,11 @@ theorem syncStep (d : Disk) (v : Vol) (st : Step) (h : QS d v) :
               subst hf
               exact ⟨rfl, rfl, rfl⟩)
             wal := by
-              have l1 : liveFiles (flushEvs (rotateEvs v).2).2 ro rc tn =
-                  [{ num := (flushEvs (rotateEvs v).2).2.walCur, recs := rc, torn := tn }] := by
+              have l1 : liveFiles (flushEvs (rotateEvs v junks).2 junks).2 ro rc tn =
+                  [{ num := (flushEvs (rotateEvs v junks).2 junks).2.walCur, recs := rc, torn := tn }] := by
                 simp [liveFiles, hus, hpf]
-              have l2 : liveFiles { (flushEvs (rotateEvs v).2).2 with s := { (flushEvs (rotateEvs v).2).2.s with closed := true } } [] [] false = [] := by
-                show (if usable ({ (flushEvs (rotateEvs v).2).2.s with closed := true } : State) = true then _ else []) = []
+              have l2 : liveFiles { (flushEvs (rotateEvs v junks).2 junks).2 with s := { (flushEvs (rotateEvs v junks).2 junks).2.s with closed := true } } [] [] false = [] := by
+                show (if usable ({ (flushEvs (rotateEvs v junks).2 junks).2.s with closed := true } : State) = true then _ else []) = []
                 rw [hnu]; rfl
               show x.wal = _ ++ liveFiles _ [] [] false
               rw [hq.wal, l1, l2, hrc, htn, List.append_nil]
@@ -433,12 +436,12 @@ theorem syncStep (d : Disk) (v : Vol) (st : Step) (h : QS d v) :
               intro hf
               rw [hwd] at hf; cases hf }
       have hfin := Seg.append (Seg.append h1 h2) h3
-      have hB : abs ({ (flushEvs (rotateEvs v).2).2.s with closed := true } : State) = abs v.s := by
-        show abs (flushEvs (rotateEvs v).2).2.s = abs v.s
+      have hB : abs ({ (flushEvs (rotateEvs v junks).2 junks).2.s with closed := true } : State) = abs v.s := by
+        show abs (flushEvs (rotateEvs v junks).2 junks).2.s = abs v.s
         rw [flushEvs_s]
-        have : Inv (rotateEvs v).2.s := rotate_inv _ hinv (by rw [← usable_eq]; exact hu)
+        have : Inv (rotateEvs v junks).2.s := rotate_inv _ hinv (by rw [← usable_eq]; exact hu)
         rw [abs_flush this]; exact hA1
-      show Seg (GoodS (abs v.s) (abs ({ (flushEvs (rotateEvs v).2).2.s with closed := true } : State))) _ _ _
+      show Seg (GoodS (abs v.s) (abs ({ (flushEvs (rotateEvs v junks).2 junks).2.s with closed := true } : State))) _ _ _
       rw [hB]
       exact hstart (hfin.good_mono (fun y hy => hy.toS))
   | reopen o =>
@@ -450,14 +453,15 @@ theorem syncStep (d : Disk) (v : Vol) (st : Step) (h : QS d v) :
       obtain ⟨d', s', hr⟩ := recover_ok d h.diskOk o
       rw [hr]
       intro x hx; subst hx
-      obtain ⟨g, q⟩ := reopen_seg x h.diskOk o d' s' hr x rfl
+      obtain ⟨g, q⟩ := reopen_seg x h.diskOk o d' s' hr junks x rfl
       exact ⟨fun n => (good3_L h (g n)).toS, ⟨⟨[], [], [], false, q⟩, rfl⟩⟩
 
 /-! ## sessions -/
 
 /-- one step keeps the process state in the simulation relation with the reference -/
-theorem syncStep_rel (d : Disk) (v : Vol) (sp : Spec) (st : Step) (h : QS d v) (hr : Rel v.s sp) :
-    Rel (fsStep false d v { st := st }).2.s (specStep sp st).1 := by
+theorem syncStep_rel (d : Disk) (v : Vol) (sp : Spec) (a : AStep) (h : QS d v) (hr : Rel v.s sp) :
+    Rel (fsStep false d v a).2.s (specStep sp a.st).1 := by
+  obtain ⟨st, dr, tn, junks⟩ := a
   by_cases hro : ∃ o, st = .reopen o
   · obtain ⟨o, rfl⟩ := hro
     simp only [fsStep, specStep]
@@ -486,54 +490,50 @@ theorem syncStep_rel (d : Disk) (v : Vol) (sp : Spec) (st : Step) (h : QS d v) (
           rw [recover_abs d o d' s' hrec, h.serves]
           exact hr.m k }
   · have hno : ∀ o, st ≠ .reopen o := fun o he => hro ⟨o, he⟩
-    rw [fsStep_s false d v { st := st } hno]
+    rw [fsStep_s false d v { st := st, drain := dr, torn := tn, junk := junks } hno]
     exact (step_sim v.s sp hr st).1
 
 theorem ackedCount_nil (n : Nat) : ackedCount [] n = 0 := rfl
 
 /-- C02, general form: from any operation boundary, after any number of events of any continuation -/
-theorem sync_run (steps : List Step) : ∀ (d : Disk) (v : Vol) (sp : Spec), QS d v → Rel v.s sp → ∀ n,
-    DiskOk (applyEvs d ((sessionFrom false d v (sync steps)).flatten.take n)) ∧
-    (logical (applyEvs d ((sessionFrom false d v (sync steps)).flatten.take n)) =
-        (specFold sp (steps.take (ackedCount (sessionFrom false d v (sync steps)) n))).m ∨
-     logical (applyEvs d ((sessionFrom false d v (sync steps)).flatten.take n)) =
-        (specFold sp (steps.take (ackedCount (sessionFrom false d v (sync steps)) n + 1))).m) := by
-  induction steps with
+theorem sync_run (asteps : List AStep) : ∀ (d : Disk) (v : Vol) (sp : Spec), QS d v → Rel v.s sp → ∀ n,
+    DiskOk (applyEvs d ((sessionFrom false d v asteps).flatten.take n)) ∧
+    (logical (applyEvs d ((sessionFrom false d v asteps).flatten.take n)) =
+        (specFold sp ((asteps.take (ackedCount (sessionFrom false d v asteps) n)).map (·.st))).m ∨
+     logical (applyEvs d ((sessionFrom false d v asteps).flatten.take n)) =
+        (specFold sp ((asteps.take (ackedCount (sessionFrom false d v asteps) n + 1)).map (·.st))).m) := by
+  induction asteps with
   | nil =>
     intro d v sp h hr n
-    simp only [sync, List.map_nil, sessionFrom, List.flatten_nil, List.take_nil, applyEvs_nil, ackedCount_nil,
-      specFold]
+    simp only [sessionFrom, List.flatten_nil, List.take_nil, applyEvs_nil, ackedCount_nil, List.map_nil, specFold]
     refine ⟨h.diskOk, Or.inl ?_⟩
     rw [h.serves]; funext k; exact hr.m k
-  | cons st rest ih =>
+  | cons a rest ih =>
     intro d v sp h hr n
-    have hseg := syncStep d v st h d rfl
-    have hrel := syncStep_rel d v sp st h hr
+    have hseg := syncStep d v a h d rfl
+    have hrel := syncStep_rel d v sp a h hr
     have hA : abs v.s = sp.m := funext hr.m
-    have hB : abs (fsStep false d v { st := st }).2.s = (specStep sp st).1.m := funext hrel.m
-    show DiskOk (applyEvs d (((fsStep false d v { st := st }).1 ::
-        sessionFrom false (applyEvs d (fsStep false d v { st := st }).1) (fsStep false d v { st := st }).2 (sync rest)).flatten.take n)) ∧ _
-    simp only [sync, List.map_cons, sessionFrom, List.flatten_cons, ackedCount]
-    by_cases hn : (fsStep false d v { st := st }).1.length ≤ n
+    have hB : abs (fsStep false d v a).2.s = (specStep sp a.st).1.m := funext hrel.m
+    simp only [sessionFrom, List.flatten_cons, ackedCount]
+    by_cases hn : (fsStep false d v a).1.length ≤ n
     · -- the step is complete: continue from the next operation boundary
       rw [if_pos hn, List.take_append, List.take_of_length_le hn, applyEvs_append]
-      have := ih (applyEvs d (fsStep false d v { st := st }).1) (fsStep false d v { st := st }).2 (specStep sp st).1
-        hseg.2 hrel (n - (fsStep false d v { st := st }).1.length)
-      simp only [sync] at this
+      have := ih (applyEvs d (fsStep false d v a).1) (fsStep false d v a).2 (specStep sp a.st).1
+        hseg.2 hrel (n - (fsStep false d v a).1.length)
       refine ⟨this.1, ?_⟩
-      have e1 : ∀ k, List.take (1 + k) (st :: rest) = st :: List.take k rest := by
+      have e1 : ∀ k, List.take (1 + k) (a :: rest) = a :: List.take k rest := by
         intro k; rw [Nat.add_comm]; rfl
-      have e2 : ∀ k, List.take (1 + k + 1) (st :: rest) = st :: List.take (k + 1) rest := by
+      have e2 : ∀ k, List.take (1 + k + 1) (a :: rest) = a :: List.take (k + 1) rest := by
         intro k; rw [Nat.add_comm 1 k]; rfl
       rw [e1, e2]
       exact this.2
     · -- the crash falls inside the step
       rw [if_neg hn]
-      have hlt : n < (fsStep false d v { st := st }).1.length := by omega
+      have hlt : n < (fsStep false d v a).1.length := by omega
       rw [List.take_append_of_le_length (by omega)]
       obtain ⟨g1, g2⟩ := hseg.1 n
       refine ⟨g1, ?_⟩
-      simp only [Nat.zero_add, List.take_zero, List.take_succ_cons, specFold]
+      simp only [Nat.zero_add, List.take_zero, List.take_succ_cons, List.map_nil, List.map_cons, specFold]
       rw [← hA, ← hB]
       exact g2
 
@@ -557,7 +557,7 @@ theorem QS_init : QS {} {} := by
 
 theorem rejected_no_events (async : Bool) (d : Disk) (v : Vol) (a : AStep) (r : Res)
     (hr : (step v.s a.st).2.1 = some r) (hbad : r = .rejected ∨ r = .notOpen) : fsStep async d v a = ([], v) := by
-  obtain ⟨st, dr, tn⟩ := a
+  obtain ⟨st, dr, tn, jk⟩ := a
   have hnotok : r ≠ .ok := by rcases hbad with (h | h) <;> rw [h] <;> intro h' <;> cases h'
   cases st with
   | putB k val rot =>
